@@ -148,7 +148,7 @@ def run_check(spec, tier, seed, replay=None):
         if not broken:
             broken.append(lake_log[-600:])
     aud = dict(theorems=[], axioms={}, bad={}, missing=[])
-    forbidden = brv.scan_forbidden()
+    forbidden = brv.scan_forbidden(spec.props_files)
     if okl:
         aud = brv.audit(prop, spec.props_files)
         if aud["bad"]:
